@@ -322,6 +322,15 @@ def accessor_agreement(repo, rep):
 
 
 def run(repo, rep, tier):
+    rep.rule("R-C06-11", "(shared with C02) every peak kernel gets its index from the one locator applied to the direction-integrated spectrum, whatever "
+                         "the number of non-spectral dimensions: a shortcut for single spectra makes a spectrum's peak depend on whether it is "
+                         "processed alone or inside a dataset")
+    from .c02 import peak_locator as _pl
+    from .c07 import _Relabel
+    _pl(repo, _Relabel(rep, "R-C06-11"))
+    rep.rule("R-C06-10", "(shared with C07) the label map of one spectrum is a fresh array, not shared with the map of the next spectrum: no function-static or file-scope object in specpart_wrap.c other than the method / module tables")
+    from . import cnative as _cn
+    _cn.wrapper_state(_cn.wrap(repo), rep, "R-C06-10")
     rep.rule("R-C06-1", "every reduction / cumulative / rolling / interp / sort on per-spectrum data names its dimension(s) and they "
                         "are spectral (freq, dir)")
     rep.rule("R-C06-2", "no float()/int()/.item() of per-spectrum data and no Python branch whose condition is per-spectrum data")
